@@ -3,6 +3,8 @@ CONSTANTS
   NMsgs = 5
   Limit = 2
   MaxFaults = 3
+  FlakyPeer = FALSE
+  ResetOnConnect = FALSE
 INVARIANTS Subsequence NotBoth Accounted
 PROPERTY Finishes
 CHECK_DEADLOCK FALSE
